@@ -151,6 +151,11 @@ def check(run):
             o.check(bool(g), "try_reconstruct_block|completed|last-known", "guarded by last_slice being known", sp, det)
             g = [a for a in atoms if a[0] == "lt" and a[2] is True and any(K.mentions_field(x, "slot", "BlockData") for x in a[1][1:]) and is_parent(a[1][0])]
             o.check(bool(g), "try_reconstruct_block|completed|parent-slot-earlier", "guarded by parent.slot < self.slot (first slice's parent)", sp, det)
+            rec = [lambda a: a[0] == "is_some" and (K.is_field(a[1][0], "completed", "BlockData") or K.is_field(a[1][0], "last_slice", "BlockData")),
+                   lambda a: a[0] == "eq" and any(K.mentions_field(x, "slices", "BlockData") for x in a[1]),
+                   lambda a: a[0] == "lt" and any(K.mentions_field(x, "slot", "BlockData") for x in a[1])]
+            extra = D.extra_guards(prog, b, bb, rec)
+            o.check(not extra, "try_reconstruct_block|completed|no-extra-condition", "no further condition keeps a complete, well-formed block from being announced", sp, {"extra": G.atoms_show(extra)})
         # parent switch: the other definition(s) of the parent variable
         sw = []
         for d in b.defs().get(parent_local, []) if parent_local is not None else []:
